@@ -7,6 +7,7 @@ import hashlib
 import re
 import importlib
 import inspect
+import itertools
 import logging
 import os
 import pkgutil
@@ -93,6 +94,21 @@ ONNX_FUNCTION_PLUGIN_REGISTRY: Dict[str, "FunctionPlugin"] = {}
 
 # Store instance objects for class-based call targets
 INSTANCE_MAP2: weakref.WeakValueDictionary[int, Any] = weakref.WeakValueDictionary()
+
+# id() values are recycled: the key of a temporary instance that has died must
+# never resolve to a later object at the same address.  Keys are drawn from a
+# counter, one per live instance.
+_INSTANCE_KEY_COUNTER = itertools.count(1)
+_INSTANCE_KEYS: dict[int, tuple[weakref.ref[Any], int]] = {}
+
+
+def _instance_key_for(instance: Any) -> int:
+    known = _INSTANCE_KEYS.get(id(instance))
+    if known is not None and known[0]() is instance:
+        return known[1]
+    key = next(_INSTANCE_KEY_COUNTER)
+    _INSTANCE_KEYS[id(instance)] = (weakref.ref(instance), key)
+    return key
 
 # Track @onnx_function hits (optional)
 _ONNX_FN_HITS: ContextVar[set[str]] = ContextVar("_ONNX_FN_HITS", default=set())
@@ -641,7 +657,7 @@ class FunctionPlugin(PrimitivePlugin):
                 expects_self = is_class or (params and params[0] == "self")
                 if expects_self:
                     instance = args[0]
-                    instance_key = id(instance)
+                    instance_key = _instance_key_for(instance)
                     INSTANCE_MAP2[instance_key] = instance
                     bound_orig = original_call.__get__(instance, type(instance))
                     self._orig_fn = bound_orig
